@@ -19,6 +19,8 @@ HEADER = "From Coq Require Import ZArith List.\nImport ListNotations.\nFrom IBL.
 WHITELIST = sorted(common.STDLIB_AXIOMS)      # used by C20_svd_rank_float_exact (Flocq / Reals) only — enforced in _run
 AXIOM_THEOREMS = {"C20_svd_rank_float_exact", "C20_svd_rank_exact_share"}
 TRUSTED = [
+    "coqchk re-checks IBL.C20.Props and all it depends on EXCEPT the module IBL.C20.RankSweep (three exhaustive vm_compute "
+    "sweeps, compiled and kernel-checked by coqc, admitted for coqchk only: coverage.coqchk.Props.admitted_modules_not_rechecked)",
     "Coq 8.16.1 kernel + vm_compute (no native_compute); every C20 theorem is closed under the global context except "
     "C20_svd_rank_float_exact (Flocq 4.1 + Reals: ClassicalDedekindReals.sig_forall_dec, sig_not_dec, "
     "functional_extensionality_dep, Classical_Prop.classic)",
@@ -672,7 +674,9 @@ def run(ctx):
 
 
 def _run(ctx):
-    common.proof_obligations(ctx, whitelist=WHITELIST)
+    # RankSweep.v holds only the exhaustive vm_compute sweeps over the integer binary64 model: kernel-checked by coqc in the
+    # build, taken as given by the independent re-check (coqchk would re-evaluate them without the VM); named in the evidence
+    common.proof_obligations(ctx, whitelist=WHITELIST, coqchk_admit=["IBL.C20.RankSweep"])
     for name, ax in ctx.theorems.items():
         if name not in AXIOM_THEOREMS and ax != "Closed under the global context":
             ctx.broken_proofs.append({"theorem": name, "why": "expected to be closed under the global context, uses %s" % ax})
